@@ -1272,10 +1272,14 @@ func vRaceFree(threads int, body func()) bool {
 
 func vPoolUseAfterPut() int { return 0 }
 
-// vConcurrently (native): the body from n goroutines, 60 rounds each (race-detector replay)
+// vConcurrently (native): the body from many goroutines (at least n, and more than there are processors, so that
+// goroutines share the per-processor caches of sync.Pool), 60 rounds each (race-detector replay)
 func vConcurrently(n int, body func()) {
 	var wg sync.WaitGroup
 	start := make(chan struct{})
+	if m := 3 * runtime.GOMAXPROCS(0); n < m {
+		n = m
+	}
 	for g := 0; g < n; g++ {
 		wg.Add(1)
 		go func() {
@@ -1283,6 +1287,7 @@ func vConcurrently(n int, body func()) {
 			<-start
 			for r := 0; r < 60; r++ {
 				body()
+				runtime.Gosched()
 			}
 		}()
 	}
